@@ -1,5 +1,12 @@
 #!/bin/bash
-for p in $(ps -eo pid,comm | awk '$2=="haysim" || $2=="nssim" {print $1}'); do kill -9 $p; done
-for p in $(ps -eo pid,cmd | grep "verif check" | grep -v grep | awk '{print $1}'); do kill -9 $p; done
+# usage: tools/killsim.sh [all]   — kills the simulator processes of checks against /repo (build/ws-8363075089) and their
+# driver; with "all" every haysim/nssim process (also those of vp runs and scratch copies). Never use pkill -f from the tool.
+pat="/verif/build/ws-8363075089/"
+[ "${1:-}" = "all" ] && pat="/build/ws-"
+for p in $(ps -eo pid,args | grep -E "(haysim|nssim)" | grep "$pat" | grep -v grep | awk '{print $1}'); do kill -9 $p 2>/dev/null; done
+for p in $(ps -eo pid,args | grep "python3 ./verif check" | grep -v grep | awk '{print $1}'); do
+  cwd=$(readlink /proc/$p/cwd 2>/dev/null)
+  if [ "$cwd" = "/verif" ] || [ "${1:-}" = "all" ]; then kill -9 $p 2>/dev/null; fi
+done
 sleep 1
-ps -eo pid,comm | awk '$2=="haysim" || $2=="nssim"' | wc -l
+ps -eo pid,args | grep -E "(haysim|nssim)" | grep "$pat" | grep -v grep | wc -l
